@@ -78,12 +78,16 @@ Definition as_event (s : sx) : option wevent :=
   | _ => None
   end.
 
-(* (conc_footprint_check ((key (old)|() (new)|() pattern-code) ...)) -> (ok ((index key))|()) *)
+(* (conc_footprint_check ((key (old)|() (new)|() pattern-code) ...)) -> (ok ((index key))|() (#publish #same #change #remove)) *)
 Definition h_footprint_check (a : list sx) : sx :=
   match a with
   | [evs] =>
     match as_list_of as_event evs with
-    | Some evs => SL [sbool (footprint_ok evs); sopt (fun nk => SL [sN (fst nk); sN (snd nk)]) (first_bad_ev 0 [] evs)]
+    | Some evs => SL [sbool (footprint_ok evs); sopt (fun nk => SL [sN (fst nk); sN (snd nk)]) (first_bad_ev 0 [] evs);
+                      SL [sN (N.of_nat (List.length (List.filter (fun e => N.eqb (ekind_code (ev_kind e)) 0) evs)));
+                          sN (N.of_nat (List.length (List.filter (fun e => N.eqb (ekind_code (ev_kind e)) 1) evs)));
+                          sN (N.of_nat (List.length (List.filter (fun e => N.eqb (ekind_code (ev_kind e)) 2) evs)));
+                          sN (N.of_nat (List.length (List.filter (fun e => N.eqb (ekind_code (ev_kind e)) 3) evs)))]]
     | None => err "args"
     end
   | _ => err "arity"
